@@ -105,8 +105,11 @@ def build_harness(family, extra_flags=(), libs=("-lcurl", "-lpthread")):
     """Compile harness/impl_<family>.cpp against the current tree.  Returns path of the executable."""
     d, secs, rebuilt = build_lib()
     src = HARNESS / f"impl_{family}.cpp"
+    extra = HARNESS / f"impl_{family}_extra.cpp"      # optional second translation unit (e.g. another #include-d .cpp of the repo)
     hh = hashlib.sha256()
     hh.update(src.read_bytes())
+    if extra.exists():
+        hh.update(extra.read_bytes())
     hh.update((HARNESS / "common.hpp").read_bytes())
     hh.update(" ".join(extra_flags).encode())
     exe = d / f"impl_{family}_{hh.hexdigest()[:12]}"
@@ -116,7 +119,8 @@ def build_harness(family, extra_flags=(), libs=("-lcurl", "-lpthread")):
                 old.unlink()
             cmd = ([CXX] + CXXFLAGS + list(extra_flags) +
                    ["-I", str(HARNESS), "-I", str(REPO / "include"), "-I", str(REPO / "src"),
-                    "-I", str(REPO), str(src), str(d / "libeph.a")] + list(libs) + ["-o", str(exe) + ".tmp"])
+                    "-I", str(REPO), str(src)] + ([str(extra)] if extra.exists() else []) +
+                   [str(d / "libeph.a")] + list(libs) + ["-o", str(exe) + ".tmp"])
             r = subprocess.run(cmd, capture_output=True, text=True)
             if r.returncode != 0:
                 raise BuildError(f"building harness {family} failed:\n{r.stderr[-6000:]}")
